@@ -105,8 +105,8 @@ func DiffMessage(m kafka.Message, r refcodec.Record) string {
 		return fmt.Sprintf("value of %d bytes differs from the stored %d bytes", len(m.Value), len(r.Value))
 	case r.Timestamp == 0 && !m.Time.IsZero():
 		return fmt.Sprintf("time %v, stored record has no timestamp", m.Time)
-	case r.Timestamp != 0 && m.Time.UnixNano()/int64(time.Millisecond) != r.Timestamp:
-		return fmt.Sprintf("time %d ms, stored %d ms", m.Time.UnixNano()/int64(time.Millisecond), r.Timestamp)
+	case r.Timestamp != 0 && refcodec.MillisOf(m.Time) != r.Timestamp:
+		return fmt.Sprintf("time %d ms, stored %d ms", refcodec.MillisOf(m.Time), r.Timestamp)
 	case len(m.Headers) != len(r.Headers):
 		return fmt.Sprintf("%d headers, stored %d", len(m.Headers), len(r.Headers))
 	}
